@@ -11,6 +11,16 @@ files) is
     file system with realpath/isdir/scandir, never off the implementation) and
     given to the extracted Gallina mirror `Model.Includes.run_project`;
   * judged by an independent oracle for the property text (Python, realpath).
+
+Third audit: files carry pragma variants (none / too new / too old), templates
+instantiate templates of other files, files may end in `component main`, the
+tool may be started in a subdirectory, symlinks may dangle or loop; the oracle
+also checks that the definitions of every file read reach the analysis (in
+process: names handed over; CLI: CS0018 results of the SARIF output); the
+premises of the theorems about run_project (canon_idempotent_b, depth_ok_b)
+and the completeness of the table are evaluated for every project and an unmet
+one is a violation; the files read are cross-checked with the FileLibrary and
+a changed log line / message wording is reported as a reader problem.
 """
 import concurrent.futures
 import itertools
@@ -22,6 +32,12 @@ import shutil
 import common
 
 PRAGMA = "pragma circom 2.0.0;\n"
+DEFAULT_PRAGMA = "2.0.0"
+# what the generators choose from (the tool supports 2.0.0 .. 2.1.4): the usual
+# one, none at all, the newest supported, three too new, one too old
+PRAGMAS_TOO_NEW = ["2.1.5", "2.2.0", "3.0.0"]
+PRAGMAS_OTHER = [None, "2.1.4", "1.9.9"]
+WALK_LIMIT = 100    # directory nesting followed by the table builder and the oracle (the kernel stops symlink loops at 40)
 
 
 # --------------------------------------------------------------------------
@@ -54,32 +70,65 @@ def ext_is_circom(p):
 # --------------------------------------------------------------------------
 # projects
 # --------------------------------------------------------------------------
-# proj = {"dirs": [rel], "files": {rel: {"incs": [str], "bad": bool}},
-#         "links": {rel: target string}, "extra": [rel], "argv": [str], "libs": [str]}
+# proj = {"dirs": [rel], "files": {rel: {"incs": [str], "bad": bool, "pragma": str|None,
+#                                        "uses": [rel], "main": bool}},
+#         "links": {rel: target string}, "extra": [rel], "argv": [str], "libs": [str], "cwd": rel}
 # A spelling starting with "@/" stands for the absolute path <root>/...
+# "pragma": the version of the file's pragma (absent key: 2.0.0; None: no pragma);
+# "uses": files whose template this file's template instantiates (one component
+# per line, its output left unused, so that the tool's unused-output finding
+# CS0018 at that line says whether the other file's definition was known);
+# "main": the file ends in `component main = <its template>();`;
+# "cwd": the directory (relative to root) the tool is started in; relative
+# argv/-L spellings are relative to it.
 
 def subst(s, root):
     return root + s[1:] if s.startswith("@/") else s
+
+
+def cwd_of(proj, root):
+    c = proj.get("cwd") or ""
+    return os.path.join(root, c) if c else root
 
 
 def template_names(proj):
     return {rel: "T%d" % i for i, rel in enumerate(sorted(proj["files"]))}
 
 
-def source_of(proj, rel, root):
-    """(text, [(include string, start, end of ';', start of next token)])"""
+def source_parts(proj, rel, root):
+    """(text, [(include string, start, end of ';', start of next token)],
+        [(used rel, 1-based line of its `component` statement)])"""
     spec = proj["files"][rel]
-    text = PRAGMA
+    v = spec.get("pragma", DEFAULT_PRAGMA)
+    text = "" if v is None else "pragma circom %s;\n" % v
     spans = []
     for inc in spec["incs"]:
         stmt = 'include "%s";' % subst(inc, root)
         spans.append((subst(inc, root), len(text), len(text) + len(stmt), len(text) + len(stmt) + 1))
         text += stmt + "\n"
+    use_lines = []
     if spec.get("bad"):
         text += "template {\n"
     else:
-        text += "template %s() { signal input a; signal output b; b <-- a; }\n" % template_names(proj)[rel]
-    return text, spans
+        tn = template_names(proj)
+        uses = [u for u in spec.get("uses", []) if u in tn]
+        if not uses:
+            text += "template %s() { signal input a; signal output b; b <-- a; }\n" % tn[rel]
+        else:
+            text += "template %s() { signal input a; signal output b; b <-- a;\n" % tn[rel]
+            for k, u in enumerate(uses):
+                use_lines.append((u, text.count("\n") + 1))
+                text += "  component c%d = %s();\n" % (k, tn[u])
+                text += "  c%d.a <== a;\n" % k
+            text += "}\n"
+        if spec.get("main"):
+            text += "component main = %s();\n" % tn[rel]
+    return text, spans, use_lines
+
+
+def source_of(proj, rel, root):
+    """(text, [(include string, start, end of ';', start of next token)])"""
+    return source_parts(proj, rel, root)[:2]
 
 
 def materialise(proj, root):
@@ -113,17 +162,22 @@ def real_to_rel(proj, root):
 # the oracle: the property text, decided with realpath on the real file system
 # --------------------------------------------------------------------------
 
-def expand_named(root, argv):
-    """canonical paths of the files named on the command line: a named path
+def expand_named(cw, argv):
+    """canonical paths of the files named on the command line (relative
+    spellings are relative to the working directory cw): a named path
     that is not a directory is an input whatever its suffix; a named directory
     stands for the .circom files below it."""
     out = []
 
     def go(p, depth):
-        q = p if p.startswith("/") else os.path.join(root, p)
+        q = p if p.startswith("/") else os.path.join(cw, p)
         if os.path.isdir(q):
-            if depth < 40:
-                for e in sorted(os.listdir(q)):
+            if depth < WALK_LIMIT:
+                try:
+                    names = sorted(os.listdir(q))
+                except OSError:
+                    names = []
+                for e in names:
                     go(pjoin(p, e), depth + 1)
         elif (depth == 0 or ext_is_circom(p)) and os.path.exists(q):
             out.append(os.path.realpath(q))
@@ -132,10 +186,10 @@ def expand_named(root, argv):
     return out
 
 
-def classify_libs(root, libs):
+def classify_libs(cw, libs):
     out = []
     for lib in libs:
-        q = lib if lib.startswith("/") else os.path.join(root, lib)
+        q = lib if lib.startswith("/") else os.path.join(cw, lib)
         if os.path.isdir(q):
             out.append(("dir", lib))
         elif ext_is_circom(lib) and os.path.exists(q):
@@ -143,7 +197,7 @@ def classify_libs(root, libs):
     return out
 
 
-def resolve(root, cfile, inc, libs):
+def resolve(cw, cfile, inc, libs):
     """The include `inc` of canonical file `cfile`: relative to the including
     file first, then the -L libraries in the order given (a directory library
     for names not starting with '.', a file library for single-component
@@ -157,7 +211,7 @@ def resolve(root, cfile, inc, libs):
             if inc.startswith("."):
                 continue
             cand = pjoin(lib, inc)
-            cand = cand if cand.startswith("/") else os.path.join(root, cand)
+            cand = cand if cand.startswith("/") else os.path.join(cw, cand)
             if os.path.isfile(cand):
                 return os.path.realpath(cand)
         else:
@@ -166,16 +220,47 @@ def resolve(root, cfile, inc, libs):
     return None
 
 
+def quoted(msg):
+    """the texts a message quotes between backticks"""
+    return re.findall(r"`([^`]*)`", msg)
+
+
+def absolute(cw, p):
+    return os.path.realpath(p if p.startswith("/") else os.path.join(cw, p))
+
+
+def files_read(impl):
+    """(the paths parse_file was called on, where that was read from, problems
+    of the readers).  Primary source: the `reading file` debug lines of the
+    parser crate.  Independent source: the FileLibrary (one entry per file that
+    was opened, in call order, whatever the log says).  When the two disagree
+    in a way only a changed log line explains — the library has entries the
+    log does not mention although the logger delivered lines, or nothing was
+    logged at all — the library is used and the reader is named as broken; a
+    re-worded line must not turn into a failure of the property with a bogus
+    input (third audit)."""
+    log = list(impl.get("read") or [])
+    lib = [n for n, _u in (impl.get("files") or [])]
+    if all(n in log for n in lib):
+        return log, "debug log", []
+    why = ("the FileLibrary holds %d files of which %d are not in the `reading file` debug lines (%d debug lines captured)"
+           % (len(lib), sum(1 for n in lib if n not in log), impl.get("nlog", 0)))
+    return lib, "file library", ["reader of `reading file` debug lines (harness/src/bin/includes.rs dump): " + why]
+
+
 def oracle(proj, root, impl, cli):
-    """List of failures of the property text on this run (empty = holds)."""
+    """List of failures of the property text on this run (empty = holds).
+    Problems of the readers (not of the tool) are collected in impl["reader_problems"]."""
     fails = []
+    problems = impl.setdefault("reader_problems", []) if isinstance(impl, dict) else []
     if impl.get("timeout"):
         return [{"clause": "cycles terminate", "detail": "parse_files did not return within 10 s"}]
     if impl.get("kind") in ("panic", "panic-outside", "bad-line", "bad-root"):
         return [{"clause": "terminates normally", "detail": "parse_files: " + impl.get("kind")}]
+    cw = cwd_of(proj, root)
     argv = [subst(a, root) for a in proj["argv"]]
-    libs = classify_libs(root, [subst(x, root) for x in proj["libs"]])
-    named = set(expand_named(root, argv))
+    libs = classify_libs(cw, [subst(x, root) for x in proj["libs"]])
+    named = set(expand_named(cw, argv))
     rel_of = real_to_rel(proj, root)
     # reachable closure per the resolution rule
     seen, order, todo, unresolved, nonfile = set(), [], list(named), [], []
@@ -189,84 +274,140 @@ def oracle(proj, root, impl, cli):
         if rel is None or proj["files"][rel].get("bad"):
             continue
         for inc, s, e1, e2 in source_of(proj, rel, root)[1]:
-            t = resolve(root, c, inc, libs)
+            t = resolve(cw, c, inc, libs)
             if t is None:
                 unresolved.append((c, inc, s, e1, e2))
             elif not os.path.isfile(t):
                 nonfile.append((c, inc, s, e1, e2, t))
             else:
                 todo.append(t)
-    # 1. each canonical file read exactly once
-    read_real = [os.path.realpath(p if p.startswith("/") else os.path.join(root, p)) for p in impl["read"]]
-    dup = sorted({p for p in read_real if read_real.count(p) > 1})
+    # 1. each canonical file read exactly once (debug log, and the FileLibrary
+    #    which has one entry per file opened)
+    read, source, probs = files_read(impl)
+    problems.extend(probs)
+    impl["read_used"] = read
+    read_real = [absolute(cw, p) for p in read]
+    lib_real = [absolute(cw, n) for n, _u in impl["files"]]
+    dup = sorted({p for p in read_real if read_real.count(p) > 1} | {p for p in lib_real if lib_real.count(p) > 1})
     if dup:
-        fails.append({"clause": "each distinct file is read and parsed once", "detail": "read more than once: %s (log: %s)" % (dup, impl["read"])})
+        fails.append({"clause": "each distinct file is read and parsed once",
+                      "detail": "read more than once: %s (%s: %s; file library: %s)" % (dup, source, read, [n for n, _u in impl["files"]])})
     # 2. exactly the reachable files (resolution order)
     got = {p for p in read_real if os.path.isfile(p)}
     if got != seen:
         fails.append({"clause": "exactly the named files and the files reachable from them are read (resolution relative to the including file, then -L libraries in order)",
                       "detail": "files read %s, reachable per the rule %s" % (sorted(got), sorted(seen))})
-    # 3. unresolved include -> error located at the include statement
+    # 3. unresolved include -> error located at the include statement.  An
+    #    include error is recognised by its code and its place (a P1000 error
+    #    with a primary label in a file that parses: the only other labelled
+    #    P1000 is the parse error, which a file that parses does not have), not
+    #    by the wording of its message
+    bad_real = {c for c, rel in rel_of.items() if proj["files"][rel].get("bad")}
     errs = []
     for r in impl["reports"]:
-        m = re.match(r"Failed to open file `(.*)`\.$", r["msg"])
-        if m and r["labels"]:
+        if r["code"] == "P1000" and r["labels"]:
             fid, s, e = r["labels"][0]
             name = impl["files"][fid][0] if fid < len(impl["files"]) else "?"
-            errs.append((os.path.realpath(name if name.startswith("/") else os.path.join(root, name)), m.group(1), s, e))
-    want = sorted((c, inc, s) for c, inc, s, e1, e2 in unresolved)
-    have = sorted((c, inc, s) for c, inc, s, e in errs)
+            c = absolute(cw, name)
+            if c in rel_of and c not in bad_real:
+                errs.append((c, s, e, r["msg"]))
+    want = sorted((c, s) for c, inc, s, e1, e2 in unresolved)
+    have = sorted((c, s) for c, s, e, m in errs)
     if want != have:
         fails.append({"clause": "an unresolved include produces an error located at the include statement",
-                      "detail": "expected (file, include, offset) %s, reported %s" % (want, have)})
+                      "detail": "expected (file, offset) %s, reported %s" % (
+                          sorted((c, inc, s) for c, inc, s, e1, e2 in unresolved), sorted((c, s, m) for c, s, e, m in errs))})
     else:
-        ends = {(c, inc, s): (e1, e2) for c, inc, s, e1, e2 in unresolved}
-        for c, inc, s, e in errs:
-            e1, e2 = ends[(c, inc, s)]
+        ends = {(c, s): (inc, e1, e2) for c, inc, s, e1, e2 in unresolved}
+        for c, s, e, m in errs:
+            inc, e1, e2 = ends[(c, s)]
             if not e1 <= e <= e2:
                 fails.append({"clause": "an unresolved include produces an error located at the include statement",
                               "detail": "range of %s in %s ends at %d, statement ends at %d" % (inc, c, e, e1)})
     for c, inc, s, e1, e2, t in nonfile:
-        if (c, inc, s) not in have:
+        if (c, s) not in have:
             fails.append({"clause": "an unresolved include produces an error located at the include statement",
                           "class": "include-resolves-to-directory",
                           "detail": "include \"%s\" in %s resolves to %s which is not a file; no error located at the statement" % (inc, c, t)})
     # 4. the user set is the set of named files
     for name, user in impl["files"]:
-        c = os.path.realpath(name if name.startswith("/") else os.path.join(root, name))
+        c = absolute(cw, name)
         if user != (c in named):
             fails.append({"clause": "only named files are user inputs",
                           "detail": "%s: is_user_input=%s, named=%s" % (name, user, c in named)})
+    # 4b. included definitions inform the analysis: what parse_files hands to
+    #     the analysis (ProgramArchive::new with a main component,
+    #     TemplateLibrary::new without) holds the definitions of every file
+    #     that was read and parses, named or only included, whatever its pragma
+    tn = template_names(proj)
+    defined = {c for c in seen if c in rel_of and c not in bad_real}
+    want_defs = sorted(tn[rel_of[c]] for c in defined)
+    if "defs" in impl and sorted(impl["defs"]) != want_defs and not dup and got == seen:
+        fails.append({"clause": "definitions from included files inform the analysis of the named files",
+                      "detail": "definitions handed to the analysis (%s) %s, definitions of the files read that parse %s"
+                                % (impl.get("kind"), sorted(impl["defs"]), want_defs)})
     # 5. CLI: analysis and findings only for named files
     if cli is not None:
         if cli.get("timeout"):
             fails.append({"clause": "cycles terminate", "detail": "CLI did not finish within 10 s"})
         else:
-            tn = template_names(proj)
             parsed_ok = {c for c in got if c in rel_of and not proj["files"][rel_of[c]].get("bad")}
             want_t = sorted(tn[rel_of[c]] for c in parsed_ok if c in named)
-            if sorted(cli["analyzing"]) != want_t and not dup:
-                fails.append({"clause": "only named files are analysed",
-                              "detail": "analysed %s, templates of named files %s" % (sorted(cli["analyzing"]), want_t)})
             found_in = set()
             for f in cli["finding_files"]:
-                c = os.path.realpath(f if f.startswith("/") else os.path.join(root, f))
-                found_in.add(c)
+                found_in.add(absolute(cw, f))
+            analyzing = cli["analyzing"]
+            analysis_findings = {absolute(cw, f) for rule, f, _l in (cli.get("sarif") or []) if f and str(rule).startswith("CS")}
+            if not analyzing and want_t and (analysis_findings & named) and not cli.get("panicked"):
+                # findings of analysis passes (rule ids CS...) are displayed for named files but no `analyzing ...` line was recognised
+                problems.append("reader of the CLI's `analyzing template/function '<name>'` lines (C19.py run_cli): none recognised "
+                                "although findings of analysis passes in named files are in the SARIF output")
+                analyzing = want_t
+            if sorted(analyzing) != want_t and not dup:
+                fails.append({"clause": "only named files are analysed",
+                              "detail": "analysed %s, templates of named files %s" % (sorted(analyzing), want_t)})
+            for c in sorted(found_in):
                 if c not in named:
-                    fails.append({"clause": "included-only files produce no findings", "detail": "finding located in " + f})
+                    fails.append({"clause": "included-only files produce no findings", "detail": "finding located in " + c})
             # the other side of the file filter: the template generated for
             # every file has findings of its own (`b <-- a`), so every named
             # file that parses is reported on — whichever named file was
             # parsed first and whether or not another named file includes it
-            if sorted(cli["analyzing"]) == want_t and not dup and not cli.get("panicked"):
+            settled = sorted(analyzing) == want_t and not dup and not cli.get("panicked")
+            if settled:
                 for c in sorted(parsed_ok):
                     if c in named and c not in found_in:
                         fails.append({"clause": "named files are reported on",
                                       "detail": "no finding located in the named file %s (findings in %s)" % (c, sorted(found_in))})
-            cli_real = [os.path.realpath(p if p.startswith("/") else os.path.join(root, p)) for p in cli["read"]]
-            if sorted(cli_real) != sorted(read_real):
+            # included definitions inform the analysis, end to end: a component
+            # whose output is left unused is reported (CS0018) exactly when the
+            # instantiated template is defined in a file that was read and
+            # parses — named or only included.  Read from the SARIF output
+            # (rule id, file, line), not from message texts
+            if settled and got == seen:
+                if cli.get("sarif") is None:
+                    problems.append("reader of the CLI's SARIF output (C19.py run_cli): " + str(cli.get("sarif_error")))
+                else:
+                    want_u, have_u = set(), set()
+                    for c in parsed_ok:
+                        if c in named:
+                            for u, line in source_parts(proj, rel_of[c], root)[2]:
+                                if os.path.join(root, u) in defined:
+                                    want_u.add((c, line))
+                    for rule, f, line in cli["sarif"]:
+                        if rule == "CS0018" and f is not None:
+                            have_u.add((absolute(cw, f), line))
+                    if want_u != have_u:
+                        fails.append({"clause": "definitions from included files inform the analysis of the named files",
+                                      "detail": "unused-output findings (CS0018) at (file, line) %s; components whose template is defined in a "
+                                                "file that was read: %s" % (sorted(have_u), sorted(want_u))})
+            cli_real = [absolute(cw, p) for p in cli["read"]]
+            if not cli["read"] and read:
+                problems.append("reader of the CLI's `reading file` debug lines on stderr (C19.py run_cli): none recognised, "
+                                "the in-process run read %d files" % len(read))
+            elif source == "debug log" and sorted(cli_real) != sorted(read_real):
                 fails.append({"clause": "each distinct file is read and parsed once",
-                              "detail": "CLI read %s, in-process run read %s" % (cli["read"], impl["read"])})
+                              "detail": "CLI read %s, in-process run read %s" % (cli["read"], read)})
     return fails
 
 
@@ -274,9 +415,11 @@ def oracle(proj, root, impl, cli):
 # abstract data for the model
 # --------------------------------------------------------------------------
 
-def abstract(proj, root):
+def abstract(proj, root, info=None):
     """The model's input line: argv, libs, canon table, directory listings,
-    contents — computed from the real file system."""
+    contents — computed from the real file system.  `info` (a dict) receives
+    the table's key sets and whether a directory walk was cut short."""
+    cw = cwd_of(proj, root)
     argv = [subst(a, root) for a in proj["argv"]]
     libs = [subst(x, root) for x in proj["libs"]]
     incs = set()
@@ -285,9 +428,10 @@ def abstract(proj, root):
             incs.add(inc)
     canon = {}
     dirs = {}
+    truncated = []
 
     def absq(p):
-        return p if p.startswith("/") else os.path.join(root, p)
+        return p if p.startswith("/") else os.path.join(cw, p)
 
     def note(p):
         q = absq(p)
@@ -296,7 +440,10 @@ def abstract(proj, root):
     def walk(p, depth):
         note(p)
         q = absq(p)
-        if os.path.isdir(q) and depth < 40:
+        if os.path.isdir(q):
+            if depth >= WALK_LIMIT:
+                truncated.append(p)
+                return
             try:
                 names = [e.name for e in os.scandir(q)]
             except OSError:
@@ -317,6 +464,7 @@ def abstract(proj, root):
             c = os.path.realpath(os.path.join(d, n))
             bases.add(os.path.dirname(c))
     bases.add(root)
+    bases.add(cw)
     for b in sorted(bases):
         for s in sorted(incs):
             note(pjoin(b, s))
@@ -335,6 +483,9 @@ def abstract(proj, root):
             contents.append(c + ",E")      # a readable file that is not Circom
         else:
             contents.append(c + ",U")
+    if info is not None:
+        info.update({"canon_keys": set(canon), "dir_keys": set(dirs), "truncated": truncated,
+                     "dir_libs": [x for x in libs if os.path.isdir(absq(x))], "argv": argv, "libs": libs})
     def lst(xs):
         return ";".join(xs) if xs else "-"
     return "\t".join([
@@ -343,6 +494,45 @@ def abstract(proj, root):
         lst([",".join([k] + (v or [])) for k, v in sorted(dirs.items())]),
         lst(sorted({v for v in canon.values() if v and os.path.isfile(v)})),
         lst(contents)])
+
+
+def table_misses(proj, root, info, model):
+    """Spellings the mirror looks up on this project that are NOT keys of the
+    table `abstract` built (a miss silently reads as "does not exist" in
+    d_canon / "not a directory" in d_is_dir).  The looked-up spellings are
+    recomputed from the model's own result with the model's path functions
+    (s_join = pjoin, s_parent of a canonical path = dirname): the command
+    line and library arguments, `parent(file) / include` for every file read
+    and each of its include statements, `library / include` for every
+    directory library and every include not starting with a dot — a superset of
+    what the run really queried.  Third audit: the table's completeness used
+    to be taken on trust."""
+    misses = []
+    if info.get("truncated"):
+        misses.append("directory walk cut at depth %d: %s" % (WALK_LIMIT, info["truncated"][:3]))
+    if not isinstance(model, dict) or model.get("status") != "ok":
+        return misses
+    keys = info["canon_keys"]
+    for x in info["argv"] + info["libs"]:
+        if x not in keys:
+            misses.append("argument " + x)
+    rel_of = real_to_rel(proj, root)
+    for c in model.get("read", []):
+        if c not in keys:
+            misses.append("file read " + c)
+        rel = rel_of.get(c)
+        if rel is None or proj["files"][rel].get("bad"):
+            continue
+        for inc, s, e1, e2 in source_of(proj, rel, root)[1]:
+            q = pjoin(os.path.dirname(c), inc)
+            if q not in keys:
+                misses.append("relative " + q)
+            if not inc.startswith("."):
+                for lib in info["dir_libs"]:
+                    q = pjoin(lib, inc)
+                    if q not in keys:
+                        misses.append("library " + q)
+    return misses
 
 
 # --------------------------------------------------------------------------
@@ -388,23 +578,78 @@ def shapes():
     out.append(("unresolved", {"dirs": ["src", "lib1"],
                                "files": {"src/a.circom": F("nothere.circom", "./x.circom", "b.circom", "sub/x.circom"),
                                          "src/b.circom": F("@/src/nope.circom", "x.circom"), "lib1/x.circom": F()}, "libs": ["lib1"]}))
+    # ---- third audit ----
+    # pragma variants in files that have includes: a file whose pragma asks
+    # for a version the tool does not support (or that has none) is still
+    # followed, its definitions are still handed to the analysis; templates
+    # instantiate templates of included files
+    for name, va, vb in (("pragma-new", "2.0.0", "2.1.5"), ("pragma-new-named", "3.0.0", None), ("pragma-old", None, "1.9.9")):
+        out.append((name, {"dirs": ["src"],
+                           "files": {"src/a.circom": F("b.circom", pragma=va, uses=["src/b.circom", "src/c.circom"]),
+                                     "src/b.circom": F("./c.circom", "d.circom", pragma=vb, uses=["src/c.circom"]),
+                                     "src/c.circom": F(pragma="2.2.0"), "src/d.circom": F()}, "libs": []}))
+    # a main component (ParseResult::Program, ProgramArchive::new): in the named
+    # file, in an included-only file, in two files; instantiated templates come
+    # from an included-only file, from a library, from a file that is not read
+    for name, mains in (("main-named", ["p/main.circom"]), ("main-included", ["lib/x.circom"]),
+                        ("main-two", ["p/main.circom", "p/y.circom"])):
+        files = {"p/main.circom": F("x.circom", "y.circom", uses=["lib/x.circom", "p/y.circom", "p/z.circom"]),
+                 "lib/x.circom": F("../p/y.circom", uses=["p/y.circom"]), "p/y.circom": F(uses=["p/z.circom"]), "p/z.circom": F()}
+        for m in mains:
+            files[m]["main"] = True
+        out.append((name, {"dirs": ["p", "lib"], "files": files, "libs": ["lib"]}))
+    # dangling and looping symlinks: named, included, met in a named directory
+    out.append(("dangling", {"dirs": ["src"],
+                             "files": {"src/a.circom": F("gone.circom", "l1.circom", "./self.circom", "b.circom", uses=["src/b.circom"]),
+                                       "src/b.circom": F("../src/gone.circom")},
+                             "links": {"src/gone.circom": "nowhere.circom", "src/l1.circom": "l2.circom", "src/l2.circom": "l1.circom",
+                                       "src/self.circom": "self.circom"},
+                             "libs": ["src/gone.circom", "src"], "argvs": [["src"], ["."], ["src/gone.circom", "src"]]}))
+    # a directory symlink loop below a named directory (the kernel ends it after 40 links)
+    out.append(("dirloop", {"dirs": ["src", "src/sub"],
+                            "files": {"src/a.circom": F("loop/loop/sub/b.circom", "loop/a.circom"), "src/sub/b.circom": F("../loop/a.circom")},
+                            "links": {"src/loop": "."}, "libs": ["src/loop/loop"],
+                            "argvs": [["src"], ["."], ["src/loop/loop/sub"], ["src/loop/a.circom", "src"]]}))
+    # the tool is started in another directory than the project root: relative
+    # argv / -L spellings are relative to it
+    out.append(("cwd-src", {"dirs": ["src", "lib1", "lib1/sub"], "cwd": "src",
+                            "files": {"src/a.circom": F("x.circom", "sub/y.circom", "./x.circom", uses=["lib1/x.circom"]),
+                                      "lib1/x.circom": F("../src/a.circom", "sub/y.circom"),
+                                      "lib1/sub/y.circom": F("x.circom", "a.circom")}, "libs": ["../lib1"]}))
+    out.append(("cwd-deep", {"dirs": ["src", "other", "other/deep"], "cwd": "other/deep",
+                             "files": {"src/a.circom": F("l.circom", "../other/t.circom", "../dl/a.circom"),
+                                       "other/t.circom": F("a.circom", "u.circom"), "other/u.circom": F("../src/l.circom")},
+                             "links": {"src/l.circom": "../other/t.circom", "dl": "src"}, "libs": [".."],
+                             "argvs": [["../../dl"], ["../..", "../t.circom"]]}))
     res = []
     for name, p in out:
         p.setdefault("links", {})
         p.setdefault("extra", [])
+        argvs = p.pop("argvs", [])
+        cwd = p.get("cwd") or ""
         cands = sorted(p["files"]) + sorted(k for k in p["links"] if k.endswith(".circom"))
+        permuted = MAX_PERMUTED if name in FIRST_SHAPES else 2
         for r in range(1, len(cands) + 1):
             for sub in itertools.combinations(cands, r):
                 # every ORDER of the named files too (which file's stack entry is
                 # popped first depends on it); subsets of more than
-                # MAX_PERMUTED files only in sorted order
-                orders = itertools.permutations(sub) if r <= MAX_PERMUTED else [sub]
+                # MAX_PERMUTED files only in sorted order (the shapes added by
+                # the third audit: pairs in both orders, larger subsets sorted)
+                orders = itertools.permutations(sub) if r <= permuted else [sub]
                 for order in orders:
                     q = json.loads(json.dumps(p))
-                    q["argv"] = list(order)
+                    q["argv"] = [os.path.relpath(x, cwd) if cwd else x for x in order]
                     q["shape"] = name
                     res.append(q)
+        for av in argvs:
+            q = json.loads(json.dumps(p))
+            q["argv"] = list(av)
+            q["shape"] = name
+            res.append(q)
     return res
+
+
+FIRST_SHAPES = ("chain", "diamond", "cycle", "libdir", "d23", "d23-cycle", "libfile", "symlink", "liborder12", "liborder21", "unresolved")
 
 
 MAX_PERMUTED = 4
@@ -435,13 +680,33 @@ def gen_random(rng):
     links = {}
     dirlinks = {}
     rels = sorted(files)
-    for i in range(rng.choice([0, 0, 1, 2])):
-        if rng.random() < 0.6:
+    for i in range(rng.choice([0, 0, 1, 2, 3])):
+        k = rng.random()
+        if k < 0.45:
             d = rng.choice(dirs)
             t = rng.choice(rels)
             name = d + "/" + rng.choice(["l%d" % i, rng.choice(pool)]) + rng.choice([".circom", ".circom", ".txt"])
             if name not in files and name not in links:
                 links[name] = rng.choice([os.path.relpath(t, d), "@/" + t])
+        elif k < 0.6:
+            # a dangling link, a link to itself, or one of a pair pointing at each other
+            d = rng.choice(dirs)
+            name = d + "/g%d.circom" % i
+            kind = rng.randrange(3)
+            if kind == 0:
+                links[name] = rng.choice(["nowhere.circom", "@/gone/x.circom", "../nodir/x.circom"])
+            elif kind == 1:
+                links[name] = "g%d.circom" % i
+            else:
+                links[name] = "h%d.circom" % i
+                links[d + "/h%d.circom" % i] = "g%d.circom" % i
+        elif k < 0.7:
+            # a directory link to the directory it lives in (at most one per
+            # directory: two would make the expansion of a named directory
+            # exponential in the kernel's limit of 40 links)
+            d = rng.choice(dirs)
+            links.setdefault(d + "/loop", ".")
+            dirlinks[d + "/loop"] = d
         else:
             t = rng.choice(dirs)
             links["dl%d" % i] = t
@@ -452,9 +717,11 @@ def gen_random(rng):
     for rel in rels:
         d = os.path.dirname(rel)
         incs = []
+        targets = []
         for _ in range(rng.choice([0, 1, 1, 2, 2, 3])):
             k = rng.randrange(10)
             t = rng.choice(allnames)
+            targets.append(t)
             r = os.path.relpath(t, d)
             if k == 0:
                 incs.append("./" + r)
@@ -472,10 +739,23 @@ def gen_random(rng):
                                         ".hidden.circom", os.path.basename(rel),
                                         os.path.relpath(rng.choice(dirs), d), os.path.basename(rng.choice(dirs))]))
             elif k == 7:
-                incs.append(spell(rng, t, dirlinks) if False else os.path.relpath(t, d))
+                # through a directory symlink (third audit: this branch was dead code)
+                via = [ln + t[len(target):] for ln, target in sorted(dirlinks.items()) if t.startswith(target + "/")]
+                incs.append(os.path.relpath(rng.choice(via), d) if via else r)
             else:
                 incs.append(r)
-        files[rel] = {"incs": incs, "bad": rng.random() < 0.05}
+        # whose templates this file's template instantiates: mostly the files
+        # it (tries to) include, sometimes any file of the project
+        uses = []
+        for _ in range(rng.choice([0, 0, 1, 1, 2])):
+            cand = [t for t in targets if t in files] if rng.random() < 0.7 else rels
+            if cand:
+                u = rng.choice(cand)
+                if u not in uses:
+                    uses.append(u)
+        pk = rng.random()
+        pragma = DEFAULT_PRAGMA if pk < 0.6 else rng.choice(PRAGMAS_TOO_NEW) if pk < 0.8 else rng.choice(PRAGMAS_OTHER)
+        files[rel] = {"incs": incs, "bad": rng.random() < 0.05, "pragma": pragma, "uses": uses, "main": rng.random() < 0.15}
     libs = []
     for _ in range(rng.choice([0, 1, 1, 2, 3])):
         k = rng.randrange(10)
@@ -491,10 +771,17 @@ def gen_random(rng):
         if k < 9:
             argv.append(spell(rng, rng.choice(allnames), dirlinks))
         elif k == 9:
-            argv.append(rng.choice(dirs + list(dirlinks) + ["."]))
+            argv.append(rng.choice(dirs + sorted(dirlinks) + ["."]))
         else:
             argv.append(rng.choice(["notes.txt", "ghost.circom", "src/ghost.circom"]))
-    return {"dirs": dirs, "files": files, "links": links, "extra": extra, "argv": argv, "libs": libs, "shape": "random"}
+    proj = {"dirs": dirs, "files": files, "links": links, "extra": extra, "argv": argv, "libs": libs, "shape": "random"}
+    if rng.random() < 0.25:
+        # started in a subdirectory: relative spellings are re-expressed relative to it
+        cwd = rng.choice(dirs)
+        proj["cwd"] = cwd
+        proj["argv"] = [a if a.startswith("@/") else os.path.relpath(a, cwd) for a in argv]
+        proj["libs"] = [a if a.startswith("@/") else os.path.relpath(a, cwd) for a in libs]
+    return proj
 
 
 # --------------------------------------------------------------------------
@@ -521,48 +808,101 @@ def run_harness(binary, lines):
     return out
 
 
-def run_cli(cli_bin, proj, root):
+def run_cli(cli_bin, proj, root, sarif_path=None):
     cmd = [cli_bin]
     for lib in proj["libs"]:
         cmd += ["-L", subst(lib, root)]
     cmd += [subst(a, root) for a in proj["argv"]]
+    if sarif_path:
+        cmd += ["--sarif-file", sarif_path]
     env = dict(os.environ)
     env["RUST_LOG"] = "debug"
-    rc, out, err = common.sh(cmd, cwd=root, env=env, timeout=10)
+    rc, out, err = common.sh(cmd, cwd=cwd_of(proj, root), env=env, timeout=10)
     if rc == 124:
         return {"timeout": True}
-    return {"rc": rc,
-            "analyzing": re.findall(r"analyzing (?:template|function) '([^']+)'", out),
-            "finding_files": re.findall(r"┌─ (.+?):\d+:\d+", out),
-            "read": re.findall(r"reading file `([^`]*)`", err),
-            "panicked": "panicked at" in err}
+    res = {"rc": rc,
+           "analyzing": re.findall(r"analyzing (?:template|function) '([^']+)'", out),
+           "finding_files": re.findall(r"┌─ (.+?):\d+:\d+", out),
+           "read": re.findall(r"reading file `([^`]*)`", err),
+           "panicked": "panicked at" in err,
+           "sarif": None}
+    if sarif_path:
+        # (rule id, file of the first location, its first line) of every result
+        try:
+            doc = json.load(open(sarif_path))
+            rows = []
+            for r in doc["runs"][0]["results"]:
+                locs = r.get("locations") or []
+                f, line = None, None
+                if locs:
+                    ph = locs[0]["physicalLocation"]
+                    f = ph["artifactLocation"]["uri"]
+                    f = f[len("file://"):] if f.startswith("file://") else f
+                    line = ph["region"]["startLine"]
+                rows.append([r.get("ruleId"), f, line])
+            res["sarif"] = rows
+        except Exception as e:          # no file (a crash of the tool), or another layout
+            res["sarif_error"] = "%s: %s" % (type(e).__name__, str(e)[:200])
+        # the two readers of finding locations must agree on the set of files
+        if res["sarif"] is not None:
+            sf = sorted({f for _r, f, _l in res["sarif"] if f})
+            of = sorted(set(res["finding_files"]))
+            if sf != of:
+                res["location_readers_differ"] = {"stdout": of, "sarif": sf}
+    return res
 
 
-def normalise(impl, dropped=None):
+def normalise(impl, dropped=None, proj=None, root=None):
     """The implementation's result in the model's output form.  The model speaks
     about P1000 reports only (file not found / include not resolved / parse error);
     every report that does not enter the comparison is counted in `dropped`
-    (code -> number; second audit: they used to be dropped without a trace)."""
+    (code -> number; second audit: they used to be dropped without a trace).
+    Third audit: the three forms are told apart by code, labels and position —
+    a labelled P1000 whose label starts at an include statement of its file is
+    the include error (named after that statement's path unless the message
+    quotes another one), any other labelled P1000 the parse error, an
+    unlabelled one the OS error of the path the message quotes — not by the
+    wording `Failed to open file`."""
     if impl.get("timeout"):
         return {"status": "timeout"}
     if impl.get("kind") not in ("program", "library"):
         return {"status": impl.get("kind")}
+    starts = {}
+    if proj is not None:
+        cw = cwd_of(proj, root)
+        rel_of = real_to_rel(proj, root)
+        for fid, (name, _u) in enumerate(impl["files"]):
+            rel = rel_of.get(absolute(cw, name))
+            if rel is not None and not proj["files"][rel].get("bad"):
+                for inc, s, e1, e2 in source_of(proj, rel, root)[1]:
+                    starts[(fid, s)] = inc
+
+    def drop(what):
+        if dropped is not None:
+            dropped[what] = dropped.get(what, 0) + 1
     reps = []
     for r in impl["reports"]:
         if r["code"] != "P1000":
-            if dropped is not None:
-                dropped[r["code"]] = dropped.get(r["code"], 0) + 1
+            drop(r["code"])
             continue
-        m = re.match(r"Failed to open file `(.*)`\.$", r["msg"])
-        if m and not r["labels"]:
-            reps.append(["os", m.group(1)])
-        elif m:
-            reps.append(["inc", m.group(1)] + r["labels"][0])
-        elif r["labels"]:
-            reps.append(["perr", r["labels"][0][0]])
-        elif dropped is not None:
-            dropped["P1000 (neither `Failed to open file` nor labelled)"] = dropped.get("P1000 (neither `Failed to open file` nor labelled)", 0) + 1
-    return {"status": "ok", "read": impl["read"], "files": [[n, bool(u)] for n, u in impl["files"]], "reports": reps}
+        q = quoted(r["msg"])
+        if not r["labels"]:
+            if q:
+                reps.append(["os", q[0]])
+            else:
+                drop("P1000 (unlabelled, no quoted path)")
+        elif proj is None:
+            m = re.match(r"Failed to open file `(.*)`\.$", r["msg"])
+            reps.append(["inc", m.group(1)] + r["labels"][0] if m else ["perr", r["labels"][0][0]])
+        else:
+            fid, s, e = r["labels"][0]
+            inc = starts.get((fid, s))
+            if inc is not None:
+                reps.append(["inc", inc if (not q or inc in q) else q[0], fid, s, e])
+            else:
+                reps.append(["perr", fid])
+    read = impl.get("read_used", impl["read"])
+    return {"status": "ok", "read": read, "files": [[n, bool(u)] for n, u in impl["files"]], "reports": reps}
 
 
 def front_report_counts(res):
@@ -581,10 +921,15 @@ def front_report_counts(res):
                     "comparison and counted here per code; the oracle of the property reads the unfiltered reports"}
 
 
-def nontrivial_key(proj, impl):
-    n = normalise(impl)
+def pragma_kind(v):
+    return "none" if v is None else "too-new" if v in PRAGMAS_TOO_NEW else "too-old" if v.startswith("1.") else "supported"
+
+
+def nontrivial_key(proj, n, impl):
     return (proj.get("shape"), len(n.get("read", [])), len(proj["libs"]), len(proj.get("links", {})),
-            tuple(sorted(r[0] for r in n.get("reports", []))), sum(1 for f in n.get("files", []) if f[1]))
+            tuple(sorted(r[0] for r in n.get("reports", []))), sum(1 for f in n.get("files", []) if f[1]),
+            impl.get("kind"), bool(proj.get("cwd")),
+            tuple(sorted({pragma_kind(f.get("pragma", DEFAULT_PRAGMA)) for f in proj["files"].values()})))
 
 
 def load_corpus():
@@ -606,11 +951,12 @@ def evaluate(ctx, projs, base, with_model=True, with_cli=True):
     CLI = common.build_cli() if with_cli else None
     MODEL_BIN = common.build_model("includes") if with_model else None
     roots = []
+    os.makedirs(os.path.join(base, "sarif"), exist_ok=True)
     for i, p in enumerate(projs):
         root = os.path.join(base, "p%04d" % i)
         materialise(p, root)
         roots.append(root)
-    lines = ["\t".join([root, ";".join(subst(a, root) for a in p["argv"]) or "-",
+    lines = ["\t".join([cwd_of(p, root), ";".join(subst(a, root) for a in p["argv"]) or "-",
                         ";".join(subst(x, root) for x in p["libs"]) or "-"]) for p, root in zip(projs, roots)]
     nsh = max(1, min(common.NPROC, len(lines) // 8))
     chunks = [lines[i::nsh] for i in range(nsh)]
@@ -623,19 +969,32 @@ def evaluate(ctx, projs, base, with_model=True, with_cli=True):
     clis = [None] * len(projs)
     if with_cli:
         with concurrent.futures.ThreadPoolExecutor(max_workers=common.NPROC) as ex:
-            clis = list(ex.map(lambda pr: run_cli(CLI, pr[0], pr[1]), zip(projs, roots)))
+            clis = list(ex.map(lambda pr: run_cli(CLI, pr[1][0], pr[1][1], os.path.join(base, "sarif", "p%04d.sarif" % pr[0])),
+                               enumerate(zip(projs, roots))))
     models = [None] * len(projs)
+    infos = [{} for _ in projs]
     if with_model:
-        mlines = [abstract(p, root) for p, root in zip(projs, roots)]
+        mlines = [abstract(p, root, info) for p, root, info in zip(projs, roots, infos)]
         mo = common.run_lines(MODEL_BIN, ["run"], mlines, shards=common.NPROC)
         models = [json.loads(x) for x in mo]
+        if len(models) != len(projs):
+            raise common.BuildError("model driver includes printed %d lines for %d projects" % (len(models), len(projs)), "")
+    if any(x is None for x in impl):
+        raise common.BuildError("harness includes returned no result for %d of %d projects" % (sum(1 for x in impl if x is None), len(impl)), "")
     res = []
-    for p, root, im, cl, mo in zip(projs, roots, impl, clis, models):
+    for p, root, im, cl, mo, info in zip(projs, roots, impl, clis, models, infos):
         idem = mo.pop("canon_idempotent", None) if isinstance(mo, dict) else None
+        depth_ok = mo.pop("depth_ok", None) if isinstance(mo, dict) else None
         dropped = {}
+        fails = oracle(p, root, im, cl)          # also settles which reader of the files read is used
         res.append({"proj": p, "root": root, "impl": im, "cli": cl, "model": mo,
-                    "norm": normalise(im, dropped), "fails": oracle(p, root, im, cl),
-                    "canon_idempotent": idem, "dropped": dropped})
+                    "broken_links": sum(1 for rel in p.get("links", {}) if not os.path.exists(os.path.join(root, rel))),
+                    "norm": normalise(im, dropped, p, root), "fails": fails,
+                    "canon_idempotent": idem, "depth_ok": depth_ok, "dropped": dropped,
+                    "table_misses": table_misses(p, root, info, mo) if with_model else [],
+                    "reader_problems": list(im.get("reader_problems", [])) +
+                                       (["readers of finding locations (stdout `┌─` lines, SARIF locations; C19.py run_cli) name different files: %s"
+                                         % json.dumps(cl["location_readers_differ"])] if cl and cl.get("location_readers_differ") else [])})
     return res
 
 
@@ -643,12 +1002,32 @@ def strip_root(x, root):
     return json.loads(json.dumps(x).replace(root, "@"))
 
 
+def hidden_include_errors(r):
+    """Include errors located in files that were only included: present in the
+    unfiltered reports of parse_files, absent from what the CLI shows (its
+    per-file filter) — counted as an observation, see design.d/C19.md."""
+    im, cl = r["impl"], r["cli"]
+    if not cl or cl.get("sarif") is None or im.get("kind") not in ("program", "library"):
+        return 0, 0
+    hidden = shown = 0
+    located = {(f, l) for rule, f, l in cl["sarif"] if rule == "P1000" and f}
+    for x in r["norm"].get("reports", []):
+        if x[0] == "inc":
+            name, user = im["files"][x[2]]
+            if user:
+                shown += 1
+            else:
+                hidden += 1 if not any(f == name for f, _l in located) else 0
+    return hidden, shown
+
+
 def run(ctx, proofs):
     quick = ctx.tier == "quick"
     base = os.path.join(ctx.work, "run_%d_%d" % (ctx.seed, os.getpid()))
     os.makedirs(base, exist_ok=True)
     try:
-        projs = load_corpus() + shapes()
+        fixed = shapes()
+        projs = load_corpus() + fixed
         nrand = 300 if quick else 3000
         projs += [gen_random(ctx.rng) for _ in range(nrand)]
         res = evaluate(ctx, projs, base)
@@ -656,7 +1035,7 @@ def run(ctx, proofs):
         keys = set()
         shapes_count = {}
         for r in res:
-            keys.add(nontrivial_key(r["proj"], r["impl"]))
+            keys.add(nontrivial_key(r["proj"], r["norm"], r["impl"]))
             shapes_count[r["proj"].get("shape")] = shapes_count.get(r["proj"].get("shape"), 0) + 1
             if r["model"] != r["norm"]:
                 disagreements.append(r)
@@ -678,17 +1057,74 @@ def run(ctx, proofs):
             elif proofs["failures"]:
                 ctx.violation("proof obligations of C19 no longer check: " + "; ".join(proofs["failures"])[:500],
                               {"broken": "props/C19.v", "failures": proofs["failures"]}, no_input=True)
+        # the readers (third audit): a re-worded log line, a moved logger, another
+        # SARIF layout are problems of this check's readers, reported as such
+        # and by name, whatever the oracle said
+        with_problem = [r for r in res if r["reader_problems"]]
+        if with_problem:
+            kinds = {}
+            for r in with_problem:
+                for pr in r["reader_problems"]:
+                    kinds.setdefault(pr.split(":")[0], []).append(pr)
+            for k, v in sorted(kinds.items())[:3]:
+                ctx.violation("a reader of the tool's output no longer recognises it on %d projects - %s" % (len(v), v[0].replace(with_problem[0]["root"], "@")[:400]),
+                              {"broken": k, "projects": len(v), "first": v[0][:600],
+                               "note": "the oracle fell back on the other source where there is one (file library for the files read)"},
+                              no_input=True)
+        # the premises of the theorems about run_project, evaluated on every project
+        not_idem = [r for r in res if r["canon_idempotent"] is not True]
+        not_depth = [r for r in res if r["depth_ok"] is not True]
+        missed = [r for r in res if r["table_misses"]]
+        if not_idem:
+            r = not_idem[0]
+            ctx.violation("premise canon_idempotent_b of C19_run_project_each_file_once / _fuel_ok is false (or was not evaluated) on %d "
+                          "project tables: the theorems say nothing about these runs" % len(not_idem),
+                          {"broken": "premise canon_idempotent_b (table built by C19.py abstract)", "projects": len(not_idem),
+                           "first": {"input": r["proj"], "model": strip_root(r["model"], r["root"])}}, no_input=True)
+        if not_depth:
+            r = not_depth[0]
+            ctx.violation("premise depth_ok_b (directories below the named paths nest at most 63 deep) of C19_run_project_fuel_ok is "
+                          "false (or was not evaluated) on %d projects" % len(not_depth),
+                          {"broken": "premise depth_ok_b", "projects": len(not_depth),
+                           "first": {"input": r["proj"], "model": strip_root(r["model"], r["root"])}}, no_input=True)
+        if missed:
+            r = missed[0]
+            ctx.violation("the table given to the mirror lacks spellings the mirror looks up on %d projects (a missing spelling reads "
+                          "as `does not exist`): %s" % (len(missed), "; ".join(r["table_misses"][:3]).replace(r["root"], "@")[:300]),
+                          {"broken": "table completeness (C19.py abstract)", "projects": len(missed),
+                           "first": {"input": r["proj"], "misses": strip_root(r["table_misses"][:10], r["root"])}}, no_input=True)
         nread = [len(r["norm"].get("read", [])) for r in res]
+        hid = [hidden_include_errors(r) for r in res]
+        pk = {}
+        for r in res:
+            for f in r["proj"]["files"].values():
+                k = pragma_kind(f.get("pragma", DEFAULT_PRAGMA))
+                pk[k] = pk.get(k, 0) + 1
+        def uses_of(r, only_included):
+            cw = cwd_of(r["proj"], r["root"])
+            named = {absolute(cw, n) for n, u in (r["impl"].get("files") or []) if u}
+            readset = {absolute(cw, n) for n, u in (r["impl"].get("files") or [])}
+            n = 0
+            for rel, f in r["proj"]["files"].items():
+                if os.path.join(r["root"], rel) in named and not f.get("bad"):
+                    for u in f.get("uses", []):
+                        c = os.path.join(r["root"], u)
+                        if c in readset and (not only_included or c not in named):
+                            n += 1
+            return n
         ctx.coverage.update({
             "evaluations": len(res),
             "distinct_nontrivial": len(keys),
             "rule": "a project counts once per (shape, number of files read, number of -L options, number of symlinks, "
-                    "multiset of include/OS/parse error kinds, number of user-input files)",
+                    "multiset of include/OS/parse error kinds, number of user-input files, program/library result, "
+                    "started in a subdirectory or not, set of pragma kinds of its files)",
             "exhaustive": False,
             "exhaustive_part": "for each of the %d fixed shapes (chain, diamond, cycle with self-includes, library directory, "
-                               "D23 witnesses, library file, symlinks, library order, unresolved) every non-empty subset of its "
-                               "files is named on the command line, subsets of up to %d files in every order: %d projects"
-                               % (len({p.get('shape') for p in shapes()}), MAX_PERMUTED, len(shapes())),
+                               "D23 witnesses, library file, symlinks, library order, unresolved; third audit: pragma variants, main "
+                               "component named/included/twice, dangling and looping symlinks, directory symlink loop, started in a "
+                               "subdirectory) every non-empty subset of its files is named on the command line, subsets of up to %d "
+                               "files in every order for the first eleven shapes and pairs in both orders for the others: %d projects"
+                               % (len({p.get('shape') for p in fixed}), MAX_PERMUTED, len(fixed)),
             "samples": [strip_root({"input": r["proj"], "impl": r["norm"]}, r["root"]) for r in (disagreements[:1] or res[-2:])],
             "projects_by_shape": shapes_count,
             "files_read_histogram": {str(k): nread.count(k) for k in sorted(set(nread))},
@@ -699,20 +1135,58 @@ def run(ctx, proofs):
             "spec_failures": len(failing),
             "projects_including_a_directory": sum(1 for r in res if r["proj"].get("shape") == "random" and any(
                 os.path.basename(i) in ("src", "sub", "other", "lib1", "lib2", ".", "..") for f in r["proj"]["files"].values() for i in f["incs"])),
+            "premises_evaluated": {"projects": len(res),
+                                   "canon_idempotent_b_true": sum(1 for r in res if r["canon_idempotent"] is True),
+                                   "depth_ok_b_true": sum(1 for r in res if r["depth_ok"] is True),
+                                   "tables_without_a_missing_spelling": sum(1 for r in res if not r["table_misses"]),
+                                   "rule": "all three are evaluated for every project; a project on which one is false is a "
+                                           "VIOLATION (no failing input) naming the premise"},
             "tables_with_idempotent_canon": sum(1 for r in res if r["canon_idempotent"]),
             "front_comparison_reports": front_report_counts(res),
+            "files_by_pragma_kind": pk,
+            "projects_in_program_mode": sum(1 for r in res if r["impl"].get("kind") == "program"),
+            "projects_with_a_main_component": sum(1 for r in res if any(f.get("main") for f in r["proj"]["files"].values())),
+            "projects_started_in_a_subdirectory": sum(1 for r in res if r["proj"].get("cwd")),
+            "projects_with_dangling_or_looping_symlink": sum(1 for r in res if r["broken_links"]),
+            "projects_with_directory_symlink_loop": sum(1 for r in res if any(t == "." for t in r["proj"].get("links", {}).values())),
+            "instantiations_of_a_read_file_in_named_files": sum(uses_of(r, False) for r in res),
+            "instantiations_of_an_included_only_file_in_named_files": sum(uses_of(r, True) for r in res),
+            "files_read_source": {"debug log": sum(1 for r in res if not any("reading file" in x for x in r["reader_problems"])),
+                                  "file library (fallback)": sum(1 for r in res if any("reading file" in x for x in r["reader_problems"]))},
+            "include_errors_in_named_files(displayed)": sum(h[1] for h in hid),
+            "include_errors_in_included_only_files(hidden_by_the_cli_filter)": sum(h[0] for h in hid),
+            "reader_problems": sum(len(r["reader_problems"]) for r in res),
+            "open_statements": [
+                "\"definitions from files that were only included inform the analysis of the named files\": no Coq statement. "
+                "Model.Includes abstracts a file to its include list, so the hand-over of definitions (parse_files -> "
+                "ProgramArchive::new / TemplateLibrary::new -> AnalysisRunner::template) is not mirrored; the clause is checked by the "
+                "oracle on every project (names of the definitions handed to the analysis = definitions of all files read that parse; "
+                "CS0018 on a component of an included template exactly when its file was read), see instantiations_of_* above",
+                "the pragma check (check_compiler_version) and `component main` are outside the mirror as well: that neither stops the "
+                "traversal nor drops definitions is observed (files_by_pragma_kind, projects_in_program_mode), not proved",
+            ],
         })
         ctx.assumptions += [
             "the abstract file system of the theorems (canon, is_dir, read_dir, join, parent, file_name) is a Section parameter; "
             "the closed theorems carry the premises `canon` idempotent (a canonical path canonicalises to itself) and finitely "
             "many canonical paths; the real fs::canonicalize, symlink races and permissions are observed, not proved",
-            "file contents are abstracted to their include lists (path, byte range) or a parse error; the parser proper is C04/C05/C18's",
-            "directory expansion of named directories is modelled with fuel (nesting depth); directory symlink cycles are left to the OS limit",
+            "file contents are abstracted to their include lists (path, byte range) or a parse error; the parser proper is C04/C05/C18's; "
+            "pragma, definitions, component instantiations and `component main` are outside the Coq mirror: that a file with an "
+            "unsupported or missing pragma is still followed, that the definitions of every file read reach the analysis "
+            "(ProgramArchive::new / TemplateLibrary::new) and that an unused output of a component of an included template is "
+            "reported exactly when its file was read are checked by the oracle on every project (in process: names of the "
+            "definitions handed over; CLI: CS0018 results of the SARIF output by file and line), not proved",
+            "directory expansion of named directories is modelled with fuel (nesting depth); directory symlink cycles are left to the OS limit "
+            "(40 links; one self-link per directory at most in the generated projects)",
             "the report filter: C19_included_only_report_never_displayed / C19_displayed_findings_come_from_named_files compose "
             "Model.Includes with C03's Model.Runner (filter_by_file, analysis of user definitions only) through "
             "Model.IncludesRunner.file_library_user_inputs, a three-line mirror of FileLibrary::add_file; that Model.Runner is main.rs "
             "is C03's correspondence, that FileLibrary numbers files in call order is read off the source, and the CLI output "
             "(analysing lines, finding locations, every named file reported on) is observed here on every project",
+            "an unresolvable include inside a file that was only included: parse_files reports it located at the statement (checked "
+            "on the unfiltered reports), the CLI's per-file filter does not display it (counted in the evidence, an observation)",
+            "the files read are taken from the `reading file` debug lines and cross-checked with the FileLibrary (one entry per "
+            "opened file); there is no hook for file accesses, a changed log line is reported as a reader problem",
             "the tie between the hand mirror of include_logic.rs and the code, and between the tables and the real fs::canonicalize / "
             "symlink resolution, is differential only (every fixed shape with every subset of named files, subsets of up to 4 in every "
             "order; random projects with symlinks, `../` and cycles); nothing about the operating system is proved",
